@@ -95,16 +95,24 @@ def member (a : AbsFmt) : FV → Bool
   | .inf true => a.negInf
   | .nan _ => a.nan
 
-/-- `_is_contained_in` with the suggested one-line repair: the precision test is entered
-whenever `other.prec` is finite (no `and not isinstance(other.exp, float)`). -/
-def leRepaired (a b : AbsFmt) : Bool :=
+/-! Definitions of the operators as they were before the repairs of F10 / F28 (kept only to state
+what was wrong with them). -/
+
+/-- `_is_contained_in` before F10 was repaired: the precision test was entered only when
+`other.prec` AND `other.exp` were finite. -/
+def leLegacy (a b : AbsFmt) : Bool :=
   if !specialsContainedIn a b then false
   else if expGt b.exp a.exp then false
   else if Bnd.lt b.pos a.pos then false
   else if Bnd.gt b.neg a.neg then false
-  else match b.prec with
-    | some pb => precFits a pb
-    | none => true
+  else match b.prec, b.exp with
+    | some pb, some _ => precFits a pb
+    | _, _ => true
+
+/-- `__abs__` before F28 was repaired: `pos_bound` kept, `neg_bound` ignored. -/
+def absLegacy (a : AbsFmt) : AbsFmt :=
+  { prec := a.prec, exp := a.exp, pos := a.pos, neg := .fin (RF.ofInt 0),
+    posInf := a.posInf || a.negInf, negInf := false, nan := a.nan, negZero := false }
 
 end AbsFmt
 end Fpy
